@@ -244,6 +244,30 @@ func genC03(ctx *Ctx) {
 		"FALSE AND a", "TRUE OR a", "FALSE AND Array(1)", "a AND FALSE", "Choose(1-3,1,2)", "Choose(9223372036854775807,1,2)"} {
 		emitExpr(s, "special", true)
 	}
+	// every value of the boundary pool as the variable a, under every kind of use of a variable: indexed, negated, added,
+	// searched, searched in, tested, passed to functions, compared with itself
+	{
+		pool := valuePool()
+		for pi, v := range pool {
+			if v.Type() == variants.Object {
+				continue
+			}
+			for ti, text := range []string{"a[0]", "a[1]", "a[-1]", "-a", "a + 1", "1 + a", "a IN a", "1 IN a", "a IN b", "a IS NULL", "Abs(a)", "Min(a, 1)", "a[0] = 1", "NOT a", "a ^ 2", "a << 1", "a = a", "Array(a)[0]", "If(a, 1, 2)", "a[b]", "b[a]"} {
+				other := pool[(pi*7+ti*13+3)%len(pool)]
+				if other.Type() == variants.Object {
+					other = pool[1]
+				}
+				env := sx.List{sx.L(sx.S("a"), valSXin(v)), sx.L(sx.S("b"), valSXin(other))}
+				safe := (pi+ti)%4 == 0
+				orc := c03Oracle(text, env, safe)
+				if c03FarDate {
+					continue
+				}
+				ctx.Count("expression:every-value")
+				ctx.Input(sx.L(sx.I(0), exprInput(text, env, nil), orc, sx.B(safe)), true)
+			}
+		}
+	}
 	// scale (direct oracle only): thousands of pending operands, hundreds of nesting levels, long texts - still exactly one
 	// of a result and an error, never a panic
 	for _, n := range []int{40, 130, 520, 1030, 1100, 2100} {
